@@ -292,13 +292,12 @@ Proof. repeat split; vm_compute; reflexivity. Qed.
    (round_q: correctly rounded, ties to even; compared with CPython on every run).  The record-level theorem
    (FLocRec case of text_roundtrip_schema) reduces the round trip to the per-number map num_reparse; for the
    numbers that records read from wire contain it is settled here:
-   - the sizes base * 10^exponent cm (RFC 1876, 100 values): the re-read float has the same int(), hence the same
-     encoded octet, and passes _encode_size;
+   - the sizes base * 10^exponent cm (RFC 1876, 100 values): the two-decimal text reads back, through
+     float(_decode_size(_encode_size(.))) of fix d18c8f0, to exactly the same float;
    - the altitude (whole cm): round(float(text) * 100.0) is the altitude again for every value of the 32-bit wire
      range, by error bounds on the three correctly rounded operations (no sweep). *)
 Theorem loc_sizes_from_wire_roundtrip : forall b e, 0 <= b <= 9 -> 0 <= e <= 9 ->
-  exists y, num_reparse (wire_size b e) = FFin y /\ dbl_trunc y = dbl_trunc (wire_size b e) /\
-    loc_size_ok (FFin y) = Ok tt /\ 0 <= dm (wire_size b e).
+  loc_norm (num_reparse (wire_size b e)) = Ok (wire_size b e) /\ 0 <= dm (wire_size b e).
 Proof. exact wire_size_roundtrip. Qed.
 Print Assumptions loc_sizes_from_wire_roundtrip.
 
@@ -469,7 +468,7 @@ Example tail_field_examples :
 Proof. vm_compute. repeat split; reflexivity. Qed.
 
 (* IEEE-754 checks: 1.15 * 100.0 = 114.99999999999999 (int 114, round 115); 0.29 * 100.0 truncates to 28;
-   a LOC with default sizes (omitted) and one whose size 0.07m is re-read as 7.000000000000001 cm (same int()) *)
+   a LOC with default sizes (omitted), one with explicit sizes, sizes that the wire form cannot hold *)
 Example loc_examples :
   (match float_of_text [49; 46; 49; 53] with
    | Ok x => match fmul100 x with FFin d => Some (dm d, de d, dbl_round d, dbl_trunc d) | _ => None end
@@ -483,13 +482,16 @@ Example loc_examples :
          (do text <- record_to_text ex_sty loc l1; Ok text)
          = Ok [52;50;32;50;49;32;53;52;46;48;48;48;32;78;32;55;49;32;54;32;49;56;46;48;48;48;32;87;32;45;50;52;46;48;48;109]
          /\ (do text <- record_to_text ex_sty loc l1; record_from_text ex_ctx loc (schema_chk 29) text) = Ok l1
-         /\ (do text <- record_to_text ex_sty loc l2; record_from_text ex_ctx loc (schema_chk 29) (text ++ [10]))
-            = Ok [VLoc (90, 0, 0, 1, -1) (0, 0, 0, 999, 1) 4284967295
-                       (the_dbl (num_reparse (wire_size 7 0))) (wire_size 1 6) (wire_size 0 0)]
-         /\ dbl_trunc (the_dbl (num_reparse (wire_size 7 0))) = 7 /\ the_dbl (num_reparse (wire_size 7 0)) <> wire_size 3 1
+         /\ (do text <- record_to_text ex_sty loc l2; record_from_text ex_ctx loc (schema_chk 29) (text ++ [10])) = Ok l2
+         (* 0.07m is re-read as 7.000000000000001 cm and kept as 7 cm *)
+         /\ the_dbl (num_reparse (wire_size 7 0)) <> wire_size 7 0 /\ loc_norm (num_reparse (wire_size 7 0)) = Ok (wire_size 7 0)
+         (* a size given in the text that the wire form cannot hold: 0.079m is kept as 7 cm, 29m as 20m *)
+         /\ record_from_text ex_ctx loc (schema_chk 29)
+              [49;32;78;32;49;32;69;32;48;32;48;46;48;55;57;109;32;50;57;109;32;49;109]
+            = Ok [VLoc (1, 0, 0, 0, 1) (1, 0, 0, 0, 1) 0 (wire_size 7 0) (wire_size 2 3) (wire_size 1 2)]
      | None => False
      end.
-Proof. vm_compute. repeat split; try reflexivity. discriminate. Qed.
+Proof. vm_compute. repeat split; try reflexivity; discriminate. Qed.
 
 (* SVCB / HTTPS: mandatory + alpn with a comma and a backslash inside an id (two levels of escaping) + port +
    hints + ech + an unregistered key with binary data + a valueless key; AliasMode; the record is read back; a
